@@ -264,7 +264,30 @@ pub fn cmd_macro(v: &Value) -> Value {
     let n = v["n"].as_u64().unwrap_or(2) as usize;
     let dir = v["dir"].as_str().unwrap_or("min").to_string();
     let mut model = ModelBuilder::new();
-    let b = if k == 0 {
+    let b = if k == 2 {
+        // the collection helpers (any / all / sum / min / max) over families of n = 0, 1, 2, 3 variables
+        let which = v["which"].as_str().unwrap_or("any").to_string();
+        let y = model.add_var("y", rooc::VariableType::Real(0.0, 10.0));
+        let bs = model.add_vars("b", n, rooc::VariableType::bool());
+        let xs = model.add_vars("x", n, rooc::VariableType::Real(p[0], p[1]));
+        let logic = match which.as_str() {
+            "any" => rooc::builder::any(bs.iter().copied()),
+            "all" => rooc::builder::all(bs.iter().copied()),
+            "not_any" => !rooc::builder::any(bs.iter().copied()),
+            _ => !rooc::builder::all(bs.iter().copied()),
+        };
+        let mut cons = vec![
+            BuilderConstraint::new_logic_assertion(logic, "lg".to_string()),
+            BuilderConstraint::new(Expr::from(y), rooc::Comparison::GreaterOrEqual, rooc::builder::sum(xs.iter().copied()) + p[5], "sm".to_string()),
+        ];
+        if n >= 1 {
+            cons.push(BuilderConstraint::new(Expr::from(y), rooc::Comparison::LessOrEqual, rooc::builder::max(xs.iter().copied()) + p[4], "mx".to_string()));
+            cons.push(BuilderConstraint::new(Expr::from(y) + 1.0, rooc::Comparison::GreaterOrEqual, rooc::builder::min(xs.iter().copied()), "mn".to_string()));
+        }
+        let obj = Expr::from(y) + rooc::builder::sum(bs.iter().copied());
+        let m = model.with_all(cons);
+        if dir == "max" { m.maximize(obj) } else { m.minimize(obj) }
+    } else if k == 0 {
         vars! { model =>
             a: bool;
             b: bool;
